@@ -2,6 +2,7 @@ package stick
 
 import (
 	"fmt"
+	"math"
 	"reflect"
 	"strconv"
 
@@ -185,6 +186,16 @@ func CoerceNumber(v Value) float64 {
 	return 0
 }
 
+// formatFloat formats a floating point number. Integral values are written
+// without an exponent, exactly like the same number held in an integer type
+// ("1000000", not "1e+06").
+func formatFloat(f float64, bitSize int) string {
+	if f == math.Trunc(f) && math.Abs(f) < 1e21 {
+		return strconv.FormatFloat(f, 'f', -1, bitSize)
+	}
+	return strconv.FormatFloat(f, 'g', -1, bitSize)
+}
+
 // CoerceString coerces the given value into a string. An empty string is returned
 // if the value cannot be coerced.
 func CoerceString(v Value) string {
@@ -195,10 +206,14 @@ func CoerceString(v Value) string {
 		return vc
 	case Stringer:
 		return vc.String()
-	case float32, float64, int, int8, int16, int32, int64, uint, uint8, uint16, uint32, uint64:
+	case float32:
+		return formatFloat(float64(vc), 32)
+	case float64:
+		return formatFloat(vc, 64)
+	case int, int8, int16, int32, int64, uint, uint8, uint16, uint32, uint64:
 		return fmt.Sprintf("%v", vc)
 	case Number:
-		return fmt.Sprintf("%v", vc.Number())
+		return formatFloat(vc.Number(), 64)
 	case Boolean:
 		if vc.Boolean() == true {
 			return "1" // Twig compatibility (aka PHP compatibility)
